@@ -162,7 +162,7 @@ fn case(t: &mut Tape, rec: &mut Rec<'_>) {
 pub fn property() -> Property {
     Property {
         id: "C15",
-        rule: "C16's generator (chain-biased schema, strictly valid policies, conformant store with dangling references, conformant request). For every budget k in 0..=n+1 (n = distinct entity ids in store, request and policies), \
+        rule: "C16's generator (chain-biased schema, strictly valid policies, dense conformant store with dangling references, conformant request). For every budget k in 0..=n+1 (n = distinct entity ids in store, request and policies), \
                with the library's TestEntityLoader and with a harness loader returning supersets of what is requested: Ok(d) must equal ordinary authorization; the only admissible error is `insufficient iterations`; \
                once a budget yields a decision every larger budget yields it too; budget n+1 always yields a decision. Non-trivial = the loader was asked in >=2 rounds (entity chains).",
         assumptions: &["World-S conformance", "loader contract: returns exactly the store's data (plus extras)"],
